@@ -63,6 +63,29 @@ PROPS = {
         "assumptions": ["mostly input-driven; the simulator contributes time-travel timestamps, equal-timestamp cases and the restart",
                         "a per-process timeout (proc_timeout) is the watchdog for non-terminating traversals"],
     },
+    "C08": {
+        "level": "exploration", "quick": 2000, "thorough": 100000, "batch": 25,
+        "rule": ("seeded metadata histories on one index (add, batch, delete, re-add, merge with type changes string<->number<->bool<->list, "
+                 "vacuum, refine) interleaved with snapshot, compaction, compress, restart and with filter queries at any position; each query "
+                 "is a generated AST (1-2 OR blocks of 1-2 AND clauses over =, !=, <, <=, >, >=; quoted/unquoted literals, mixed-case keywords, "
+                 "numeric-looking strings, missing keys) rendered to text; VFilter(index, text, inf) must equal the reference evaluation of the AST over "
+                 "the model's metadata of live ids, VSearch with the same filter must stay inside it (and be complete in the exact regime). "
+                 "Queries run live, after log-only restart, after snapshot restart and after compress (probes queried_in_state:*). In 15% of runs "
+                 "numbers are passed as Go int. Non-trivial: some query selected a non-empty set and >=2 mutations; distinct = hash of program."),
+        "real_vs_stub": REAL,
+        "expect_probes": ["queried_in_state:live", "queried_in_state:after_log_restart", "queried_in_state:after_snapshot_restart", "queried_in_state:compressed"],
+        "assumptions": ["documented semantics: != matches ids lacking the field; a numeric-looking literal matches the number and the string (lenient union); OR binds weaker than AND"],
+    },
+    "C09": {
+        "level": "exploration", "quick": 2000, "thorough": 100000, "batch": 25,
+        "rule": ("seeded corpora of <=12 short English/Italian texts with histories of insert / overwrite of the text field / delete / re-add / "
+                 "snapshot / compaction / compress / restart; text queries of 1-3 words: returned documents == live documents sharing >=1 analysed "
+                 "term, each score == BM25 (k1=1.2, b=0.75, idf=ln(1+(N-df+.5)/(df+.5))) recomputed from scratch on the current field values "
+                 "within 1e-9, order non-increasing; hybrid queries in the exact vector regime: score == alpha*1/(1+d) + (1-alpha)*bm25/max within "
+                 "1e-4, every live doc returned when k>=n. Non-trivial: query matched >=1 document; distinct = hash of program."),
+        "real_vs_stub": REAL + "; tokenisation by the repo's analyser is trusted (C20 territory)",
+        "assumptions": ["tokeniser/stemmer trusted", "queries are only judged while at least one live document has the text field (documented fallback to vector-only otherwise)"],
+    },
 }
 
 
@@ -72,6 +95,18 @@ NOT_APPLICABLE["C20"] = ("pure functions of their input (text analysis, chunking
                          "no schedule, fault or interleaving for a simulator to decide; property-based testing territory, see DESIGN.md section 7")
 
 MANIFEST_TEXT = {
+    "C08": {
+        "text": "Seeded exploration: generated filter ASTs are evaluated by an independent reference evaluator over the model's metadata and compared with VFilter / filtered VSearch in four ways of reaching the same logical state (live, log replay, snapshot restore, compression).",
+        "design_ref": "DESIGN.md section 6 C08",
+        "note": "Trusts the reference evaluator (documented semantics only; no quoting/escaping beyond the documented grammar is generated).",
+        "technique": "deterministic simulation: seeded metadata histories + restart/snapshot/compress injection, reference filter evaluator oracle",
+    },
+    "C09": {
+        "text": "Seeded exploration: BM25 recomputed from scratch on the current corpus (after arbitrary update/delete/restore histories) and the alpha fusion formula are compared with what text and hybrid search return.",
+        "design_ref": "DESIGN.md section 6 C09",
+        "note": "Trusts the repo's analyser for tokenisation and the BM25 constants named in the property statement.",
+        "technique": "deterministic simulation: seeded corpus histories + restart/snapshot/compress injection, from-scratch BM25 and fusion oracle",
+    },
     "C11": {
         "text": "Seeded exploration over small directed multigraphs built under the simulated clock: path finding, subgraph extraction, graph-scoped search and traversal are compared with reference BFS computed on the edge model at the queried time.",
         "design_ref": "DESIGN.md section 6 C11",
